@@ -4,12 +4,15 @@ import json, os, subprocess, tempfile, shutil, sys
 V = "/verif"
 man = json.load(open(V + "/MANIFEST.json"))
 rows = []
-only = sys.argv[1:] 
-for name in sorted(os.listdir(V + "/seeded")):
+only = sys.argv[1:]
+from concurrent.futures import ThreadPoolExecutor
+
+
+def evaluate(name):
     d = os.path.join(V, "seeded", name)
     mp = os.path.join(d, "meta.json")
     if not os.path.exists(mp):
-        continue
+        return None
     meta = json.load(open(mp))
     if meta.get("confirmed") and (not only or name in only or meta["property"] in only):
         scratch = tempfile.mkdtemp(prefix="reeval-")
@@ -35,7 +38,12 @@ for name in sorted(os.listdir(V + "/seeded")):
         meta["checks_that_report_it"] = fired
         meta["reported_by_claimed_check"] = meta["property"] in fired
         json.dump(meta, open(mp, "w"), indent=1)
-    rows.append(meta)
+        print(name, sorted(fired), flush=True)
+    return meta
+
+
+with ThreadPoolExecutor(int(os.environ.get("REEVAL_JOBS", "4"))) as ex:
+    rows = [m for m in ex.map(evaluate, sorted(os.listdir(V + "/seeded"))) if m]
 with open(V + "/seeded/INDEX.md", "w") as fh:
     fh.write("# Changes written by independent sub-agents\n\nEach sub-agent was given only the text of one property and a scratch worktree of /repo; it wrote a change that breaks the "
              "property, compiles and passes the 604 existing tests, plus a demonstration that fails with the change and passes without it. Every entry was "
